@@ -8,8 +8,15 @@ membership under Python `==` -- for a `Literal[...]` that contains enum members:
 the member itself or the plain value itself, `litConf`; `_structure_enum_literal` (model: `litStruct` / `litLookup`)
 accepts the VALUE of a member and hands out the member, rejects the member itself, later arguments win on equal keys --,
 exact arity of heterogeneous tuples, key/required-key rules, sets and
-dict keys hashable and duplicate-free); `Any`/untyped positions accept everything (documented
+dict keys hashable and duplicate-free; a mapping-typed position holds an instance of EXACTLY the type's target class:
+`dict` for `dict` / `Mapping` / `MutableMapping`, `OrderedDict` / `defaultdict` / `Counter` for those -- `MK.target`,
+`Obj.mdict`); `Any`/untyped positions accept everything (documented
 pass-through); TypedDict results may carry undeclared keys (recorded finding F9, see C10).
+
+`MapsInScope w cfg T` is the one scope condition: a `Converter` is asked about every type; a `BaseConverter` only about
+types (and class tables) whose mapping types have the target class `dict` (`Ty.plainMaps`, `World.plainMaps`) -- its
+`_structure_dict` returns a plain `dict` for `OrderedDict[K, V]` / `defaultdict[K, V]` too and it has no hook for
+`Counter[K]`: those types are outside its support (`C02_baseconverter_target_witness`).
 
 "EVERY input" includes `str` / `bytes` payloads at iterating positions: a collection / heterogeneous-tuple /
 NamedTuple / tuple-strategy class position structures any iterable, a `str` iterates into 1-character strings and
@@ -20,22 +27,39 @@ namespace CattrsModel
 /-- **Soundness, any input.**  For every well-formed class table, every converter configuration
 (both converter classes, both strategies, both validation modes, forbid on/off), every type and
 EVERY input object `o`: if `structure` returns `v` then `v` conforms to the type at every depth. -/
-theorem C02_sound (w : World) (hw : w.WF) (cfg : Cfg) (t : Ty) (o v : Obj)
+theorem C02_sound (w : World) (hw : w.WF) (cfg : Cfg) (t : Ty) (hm : MapsInScope w cfg t) (o v : Obj)
     (h : convStructure w cfg t o = some v) : conf w t v = true := by
+  have hm' : MapsInScope w cfg.core t := by simpa [MapsInScope, Cfg.core] using hm
   unfold convStructure at h
   split at h
-  · rw [modes_agree] at h; exact sound w cfg.core hw t o v h
-  · exact sound w cfg.core hw t o v h
+  · rw [modes_agree] at h; exact sound w cfg.core hw t hm' o v h
+  · exact sound w cfg.core hw t hm' o v h
 
 /-- the same for the two templates at any configuration (nested positions included) -/
-theorem C02_sound_fast (w : World) (hw : w.WF) (cfg : Cfg) (t : Ty) (o v : Obj)
-    (h : stF w cfg t o = some v) : conf w t v = true := sound w cfg hw t o v h
+theorem C02_sound_fast (w : World) (hw : w.WF) (cfg : Cfg) (t : Ty) (hm : MapsInScope w cfg t) (o v : Obj)
+    (h : stF w cfg t o = some v) : conf w t v = true := sound w cfg hw t hm o v h
 
-theorem C02_sound_detailed (w : World) (hw : w.WF) (cfg : Cfg) (t : Ty) (o v : Obj)
+theorem C02_sound_detailed (w : World) (hw : w.WF) (cfg : Cfg) (t : Ty) (hm : MapsInScope w cfg t) (o v : Obj)
     (h : stD w cfg t o = .ok v) : conf w t v = true := by
   have := modes_agree w cfg t o
   rw [h] at this
-  exact sound w cfg hw t o v this.symm
+  exact sound w cfg hw t hm o v this.symm
+
+/-- **A Converter builds exactly the target class** (corollary, spelled out): an accepted result at a mapping type is a
+`dict` when the type's target is `dict`, an instance of that very `dict` subclass otherwise -- never a `dict` for an
+`OrderedDict[K, V]`, never a `Counter` of pairs. -/
+theorem C02_target_class (w : World) (hw : w.WF) (cfg : Cfg) (hg : cfg.gen = true) (k : MK) (kt vt : Ty) (o v : Obj)
+    (h : convStructure w cfg (.map k kt vt) o = some v) :
+    ∃ kvs, v = mkMapObj k kvs ∧ confKV w kt vt kvs = true := by
+  have hc := C02_sound w hw cfg _ (Or.inl hg) o v h
+  cases v <;> simp [conf] at hc
+  · rename_i kvs
+    refine ⟨kvs, ?_, hc.1.1.1⟩
+    have : k.target = Option.none := by simpa using hc.2
+    simp [mkMapObj, this]
+  · rename_i d kvs
+    refine ⟨kvs, ?_, hc.1.1.1⟩
+    simp [mkMapObj, hc.2]
 
 /-- **No silent default / drop.**  If a key of a class payload is present and its value is rejected
 by the field's type, the class is rejected — the field is never defaulted, dropped or passed through. -/
@@ -48,18 +72,19 @@ theorem C02_no_silent_default (w : World) (cfg : Cfg) (c : Nat) (kvs : List (Obj
   rw [stFFields_present_invalid w cfg kvs (w.fields c) f x hf hinit hpresent this]
 
 /-- **Exact arity.**  A heterogeneous tuple is only ever returned with exactly the declared arity. -/
-theorem C02_het_arity (w : World) (hw : w.WF) (cfg : Cfg) (ts : List Ty) (o : Obj) (ys : List Obj)
+theorem C02_het_arity (w : World) (hw : w.WF) (cfg : Cfg) (ts : List Ty) (hm : MapsInScope w cfg (.tupleHet ts))
+    (o : Obj) (ys : List Obj)
     (h : stF w cfg (.tupleHet ts) o = some (.coll .tuple ys)) : ys.length = ts.length := by
-  have := sound w cfg hw _ _ _ h
+  have := sound w cfg hw _ hm _ _ h
   simp only [conf] at this
   exact confT_length w ts ys this
 
 /-- **NamedTuples: exact class and arity.**  A NamedTuple is only ever returned as an instance of exactly that class
 with exactly the declared fields (defaults are never used to fill in missing items, no item is dropped). -/
-theorem C02_nt_arity (w : World) (hw : w.WF) (cfg : Cfg) (c : Nat) (o v : Obj)
+theorem C02_nt_arity (w : World) (hw : w.WF) (cfg : Cfg) (c : Nat) (hm : MapsInScope w cfg (.nt c)) (o v : Obj)
     (h : stF w cfg (.nt c) o = some v) :
     ∃ fs, v = .inst c fs ∧ fs.map (·.1) = w.ntNames c ∧ fs.length = (w.fields c).length := by
-  have hc := sound w cfg hw _ _ _ h
+  have hc := sound w cfg hw _ hm _ _ h
   cases v <;> simp [conf] at hc
   rename_i c' fs
   obtain ⟨⟨⟨rfl, _⟩, hn⟩, _⟩ := hc
@@ -135,6 +160,26 @@ example : stD exWorld2 ⟨true, false, true, false⟩ (.coll .list .int) (.str "
 example : stF exWorldNT ⟨true, false, false, false⟩ (.nt 0) (.str "7b") = some (.inst 0 [("x", .int 7), ("y", .str "b")]) := by
   simp [stF, iterItems, leafFuel, exWorldNT, Leaf.stLF_nt_succ, leafItems, stLFT, stLF, World.isNT, World.ntTys, World.ntNames,
     World.fields, Field.tyA, Obj.toInt?, pyStr, ntMk, parseInt?, isDigit, digitsVal]
+/-- `structure({"a": 2}, Counter[str])` with a `Converter`: a `Counter`, in both modes (never `Counter({('a', 2): 1})`) -/
+example : stF exWorld2 ⟨true, false, false, false⟩ (.map .counter .str .int) (.dict [(.str "a", .str "2")])
+    = some (.mdict .counter [(.str "a", .int 2)]) := by
+  simp [stF, stFKV, pyStr, Obj.toInt?, parseInt?, isDigit, digitsVal, keysOf, hashableL, hashable, mapRes, mkMapObj,
+    MK.target, mkDict, dictSet]
+example : stD exWorld2 ⟨true, false, true, false⟩ (.map .counter .str .int) (.dict [(.str "a", .str "2")])
+    = .ok (.mdict .counter [(.str "a", .int 2)]) := by
+  simp [stD, stDKV, pyStr, Obj.toInt?, parseInt?, isDigit, digitsVal, hashable, mapRes, mkMapObj,
+    MK.target, mkDict, dictSet]
+example : MapsInScope exWorld2 ⟨true, false, false, false⟩ (.map .counter .str .int) := Or.inl rfl
+/-- **The scope condition cannot be dropped for a `BaseConverter`**: `BaseConverter().structure({"a": 1},
+OrderedDict[str, int])` returns a plain `dict`, which is not a value of `OrderedDict[str, int]` -- replayed on the
+implementation by the check on every run. -/
+theorem C02_baseconverter_target_witness :
+    stF exWorld2 ⟨false, false, false, false⟩ (.map .ordered .str .int) (.dict [(.str "a", .int 1)])
+      = some (.dict [(.str "a", .int 1)])
+    ∧ conf exWorld2 (.map .ordered .str .int) (.dict [(.str "a", .int 1)]) = false := by
+  constructor
+  · simp [stF, stFKV, pyStr, Obj.toInt?, keysOf, hashableL, hashable, mapRes, mkDict, dictSet]
+  · simp [conf, MK.target]
 end Examples
 
 end CattrsModel
